@@ -44,8 +44,6 @@ theorem cs_cells_match : [v128, v68, v32].all VCode.csCellsMatch = true := by de
 theorem rows16 : ∀ r ∈ h16114.G, r.length = h16114.n := by decide +kernel
 theorem rows17 : ∀ r ∈ h17123.G, r.length = h17123.n := by decide +kernel
 
-theorem ok_bind (a : Bits) (f : Bits → Except Err Bits) : (Except.ok a >>= f) = f a := rfl
-
 /-! ## the encoder cores on every input word -/
 
 theorem facts128 (y : Bits) (hy : y.length = 78) : v128.Facts y :=
@@ -75,8 +73,6 @@ theorem facts32 (y : Bits) (hy : y.length = 12) : v32.Facts y :=
 
 /-- the on-air word `VBPTC12873.encode` produces for the 72-bit message `m` -/
 def enc128 (m : Bits) : Bits := v128.encCore (m ++ cs5Bits m) false
-
-theorem cs5Bits_length (m : Bits) : (cs5Bits m).length = 5 := natToBits_length 5 _
 
 /-- a 72-bit message is accepted and gives 128 bits; the checksum call inside cannot raise -/
 theorem encode128_ok (m : Bits) (hm : m.length = 72) :
@@ -146,8 +142,6 @@ theorem reencode_128 (m : Bits) (hm : m.length = 72) :
 /-! ## (68,28): CACH short LC with CRC-8 -/
 
 def enc68 (m : Bits) : Bits := v68.encCore (m ++ crc8Bits m) false
-
-theorem crc8Bits_length (m : Bits) : (crc8Bits m).length = 8 := natToBits_length 8 _
 
 theorem encode68_ok (m : Bits) (hm : m.length = 28) :
     encode68 m = .ok (enc68 m) ∧ (enc68 m).length = 68 :=
@@ -276,7 +270,12 @@ it as 01101, so `cs5_readback` failed for it; the only test vector has checksum 
 example : fiveBitChecksumRaw [0x00, 0x10, 0x20, 0x00, 0x0c, 0x30, 0x2f, 0x9b, 0x16] = 22
     ∧ natToBits 5 22 = [true, false, true, true, false]
     ∧ natToBits 5 22 ≠ (natToBits 5 22).reverse := by decide
-example : (List.replicate 72 true).length = 72 ∧ (List.replicate 28 true).length = 28
-    ∧ (List.replicate 11 true).length = 11 := by decide
+/-- the length hypotheses are satisfiable by non-trivial messages; the first one is the regression
+message above as a 72-bit string -/
+example : (bytesToBits [0x00, 0x10, 0x20, 0x00, 0x0c, 0x30, 0x2f, 0x9b, 0x16]).length = 72
+    ∧ (natToBits 28 0x9abcdef).length = 28 ∧ (natToBits 11 0x5a5).length = 11 := by decide
+example := cs5_readback (bytesToBits [0x00, 0x10, 0x20, 0x00, 0x0c, 0x30, 0x2f, 0x9b, 0x16]) (by decide)
+example := crc8_readback (natToBits 28 0x9abcdef) (by decide)
+example := columns_32 (natToBits 11 0x5a5) false (by decide) 15 (by decide)
 
 end Dmr.C09
